@@ -1,7 +1,12 @@
 import Prom.Model.StaticMetric
+import Prom.Lemmas.C19Flush
 /-
 C19 — static-metric accessors address exactly the declared label values.
 For ALL declarations (any number of labels and values) and all orders of the backing vector's names.
+Aliases (two field names with one value) address one child (`alias_same_child`); the generated
+`flush()` of the local / auto-flush flavours delivers every update made through every field path,
+aliases included (`flush_delivers`, `flush_idempotent`; model `Prom/Model/StaticFlush.lean`), and a
+flush that skipped alias fields would not (`flush_skipping_aliases_loses`).
 -/
 namespace Prom.C19
 open Prom Prom.SM
@@ -139,5 +144,199 @@ theorem delegator_address (base : Nat) (offsets : List Nat) :
 /-- non-vacuity: a 3-label declaration with a renamed value; the path post.v2.foo -/
 def d3 : Decl := [⟨[109], [([112], [112]), ([103], [103])]⟩, ⟨[118], [([49], [72, 49]), ([50], [72, 50])]⟩, ⟨[112], [([102], [102])]⟩]
 example : resolve d3 [] [[112], [50], [102]] = some [([109], [112]), ([118], [72, 50]), ([112], [102])] := by decide
+
+/-! ### aliases: several field names carrying one value -/
+
+/-- one level: two field names with the same declared value (or both undeclared) can be exchanged at
+    the head of a path without changing what the path resolves to -/
+theorem resolve_head_alias (l : LabelDef) (ls : Decl) (prev : List (Str × Str)) (f g : Str) (fs : List Str)
+    (h : valueOf l f = valueOf l g) :
+    resolve (l :: ls) prev (f :: fs) = resolve (l :: ls) prev (g :: fs) := by
+  simp only [resolve]
+  unfold valueOf at h
+  cases hf : l.values.find? (·.1 == f) with
+  | none =>
+    cases hg : l.values.find? (·.1 == g) with
+    | none => rfl
+    | some b => rw [hf, hg] at h; simp at h
+  | some a =>
+    cases hg : l.values.find? (·.1 == g) with
+    | none => rw [hf, hg] at h; simp at h
+    | some b =>
+      obtain ⟨af, av⟩ := a
+      obtain ⟨bf, bv⟩ := b
+      rw [hf, hg] at h
+      simp only [Option.map_some, Option.some.injEq] at h
+      subst h
+      rfl
+
+/-- **alias_same_child** — two field paths that differ only in field names that map to equal values
+    (level by level `valueOf d[i] p[i] = valueOf d[i] q[i]`; the field names themselves may all differ)
+    resolve to the same label map — the same `Option`: either both denote nothing or both denote the
+    same child -/
+theorem alias_same_child : ∀ (d : Decl) (prev : List (Str × Str)) (p q : List Str),
+    p.length = q.length →
+    (∀ i (hd : i < d.length) (hp : i < p.length) (hq : i < q.length), valueOf d[i] p[i] = valueOf d[i] q[i]) →
+    resolve d prev p = resolve d prev q := by
+  intro d
+  induction d with
+  | nil =>
+    intro prev p q hlen _
+    cases p with
+    | nil =>
+      cases q with
+      | nil => rfl
+      | cons g gs => simp at hlen
+    | cons f fs =>
+      cases q with
+      | nil => simp at hlen
+      | cons g gs => simp [resolve]
+  | cons l ls ih =>
+    intro prev p q hlen h
+    cases p with
+    | nil =>
+      cases q with
+      | nil => rfl
+      | cons g gs => simp at hlen
+    | cons f fs =>
+      cases q with
+      | nil => simp at hlen
+      | cons g gs =>
+        have h0 : valueOf l f = valueOf l g := h 0 (by simp) (by simp) (by simp)
+        rw [resolve_head_alias l ls prev f g fs h0]
+        simp only [resolve]
+        cases hg : l.values.find? (·.1 == g) with
+        | none => rfl
+        | some b =>
+          obtain ⟨bf, bv⟩ := b
+          refine ih _ fs gs (by simpa using hlen) ?_
+          intro i hd hp hq
+          have := h (i + 1) (by simp; omega) (by simp; omega) (by simp; omega)
+          simpa using this
+
+/-- hence the same child of the backing vector, whatever the order of the vector's label names -/
+theorem alias_same_child_values (backing : List Str) (d : Decl) (prev : List (Str × Str)) (p q : List Str)
+    (hlen : p.length = q.length)
+    (h : ∀ i (hd : i < d.length) (hp : i < p.length) (hq : i < q.length), valueOf d[i] p[i] = valueOf d[i] q[i]) :
+    (resolve d prev p).bind (childValues backing) = (resolve d prev q).bind (childValues backing) := by
+  rw [alias_same_child d prev p q hlen h]
+
+/-- the usual case spelled out: under ONE label `l` (anywhere in the declaration) two fields `f`, `g`
+    declared with the same value — the paths `a.f.b` and `a.g.b` address the same child -/
+theorem alias_one_label (pre : Decl) (l : LabelDef) (post : Decl) (prev : List (Str × Str))
+    (a : List Str) (f g : Str) (b : List Str) (ha : a.length = pre.length)
+    (h : valueOf l f = valueOf l g) :
+    resolve (pre ++ l :: post) prev (a ++ f :: b) = resolve (pre ++ l :: post) prev (a ++ g :: b) := by
+  induction pre generalizing prev a with
+  | nil =>
+    have : a = [] := List.eq_nil_of_length_eq_zero ha
+    subst this
+    exact resolve_head_alias l post prev f g b h
+  | cons x pre ih =>
+    cases a with
+    | nil => simp at ha
+    | cons y a =>
+      simp only [List.cons_append, resolve]
+      cases hy : x.values.find? (·.1 == y) with
+      | none => rfl
+      | some c =>
+        obtain ⟨cf, cv⟩ := c
+        exact ih _ a (by simpa using ha)
+
+/-- in the generated local struct tree the two alias paths are DIFFERENT leaves (own pending amounts)
+    created from the SAME child -/
+theorem alias_leaves_same_child (d : Decl) (p q : List Str) (hlen : p.length = q.length)
+    (h : ∀ i (hd : i < d.length) (hp : i < p.length) (hq : i < q.length), valueOf d[i] p[i] = valueOf d[i] q[i]) :
+    denotes (buildLeaves d []) p = denotes (buildLeaves d []) q := by
+  rw [denotes_buildLeaves, denotes_buildLeaves, alias_same_child d [] p q hlen h]
+
+/-! ### flush of the local / auto-flush flavours -/
+
+/-- **leaf_child_eq_resolve** — the leaf a field path reaches in the tree built by `from` holds the
+    local metric of exactly the child `resolve` computes; undeclared paths reach nothing -/
+theorem leaf_child_eq_resolve (d : Decl) (p : List Str) :
+    denotes (buildLeaves d []) p = resolve d [] p := denotes_buildLeaves d [] p
+
+/-- an `inc` through a path stays in the leaf: the shared vector is untouched until a flush -/
+theorem inc_keeps_store (t : LocalTree) (p : List Str) (n : Nat) : (t.incBy p n).store = t.store := rfl
+
+/-- **conservation** — at every moment (any interleaving of `inc`s through any paths and `flush`es),
+    for every child: its value plus the pending amounts of all the leaves over it (aliases included)
+    is its initial value plus everything `inc`ed through paths that denote it -/
+theorem conservation (d : Decl) (st0 : Child → Nat) (ops : List TOp) (c : Child) :
+    ((LocalTree.init d st0).run ops).store c + pendingFor ((LocalTree.init d st0).run ops).leaves c
+      = st0 c + delivered d c ops := by
+  have := (run_conserves d ops (LocalTree.init d st0) c (fun p => denotes_buildLeaves d [] p)).2
+  rw [this]
+  simp only [LocalTree.init, pendingFor_zero _ c (buildLeaves_pending d [])]
+  omega
+
+/-- **flush_delivers** — for any declaration and any sequence of operations (`inc`s through any field
+    paths, with intermediate flushes allowed) followed by one `flush()`: every child's value is its
+    initial value plus the amounts `inc`ed through the field paths that denote it (`delivered`: the
+    paths `p` with `resolve d [] p = some c` — all aliases count), and every leaf's pending amount
+    is zero -/
+theorem flush_delivers (d : Decl) (st0 : Child → Nat) (ops : List TOp) :
+    (∀ c, (((LocalTree.init d st0).run ops).flush).store c = st0 c + delivered d c ops) ∧
+    (∀ lf ∈ (((LocalTree.init d st0).run ops).flush).leaves, lf.pending = 0) := by
+  refine ⟨fun c => ?_, ?_⟩
+  · simp only [LocalTree.flush, flushStore_apply]
+    exact conservation d st0 ops c
+  · exact zeroed_pending _
+
+theorem delivered_incs (d : Decl) (c : Child) (ps : List (List Str)) :
+    delivered d c (ps.map fun p => TOp.inc p 1) = ps.countP (fun p => decide (resolve d [] p = some c)) := by
+  induction ps with
+  | nil => rfl
+  | cons p r ih =>
+    simp only [List.map_cons, delivered, ih, List.countP_cons, decide_eq_true_eq]
+    omega
+
+/-- **flush_delivers_count** — the form of the property text: after `inc`s through the paths `ps`
+    (in that order, any paths) and one `flush()`, starting from a fresh vector, the value of every child
+    is the NUMBER of `inc`s made through paths that denote it, and nothing is pending -/
+theorem flush_delivers_count (d : Decl) (ps : List (List Str)) :
+    (∀ c, (((LocalTree.init d (fun _ => 0)).run (ps.map fun p => TOp.inc p 1)).flush).store c
+        = ps.countP (fun p => decide (resolve d [] p = some c))) ∧
+    (∀ lf ∈ (((LocalTree.init d (fun _ => 0)).run (ps.map fun p => TOp.inc p 1)).flush).leaves, lf.pending = 0) := by
+  obtain ⟨h1, h2⟩ := flush_delivers d (fun _ => 0) (ps.map fun p => TOp.inc p 1)
+  refine ⟨fun c => ?_, h2⟩
+  rw [h1 c, delivered_incs]
+  omega
+
+/-- **flush_idempotent** — a second `flush()` changes nothing (neither the vector nor the tree) -/
+theorem flush_idempotent (t : LocalTree) : t.flush.flush = t.flush := by
+  show LocalTree.mk _ _ = LocalTree.mk _ _
+  congr 1
+  · funext c
+    simp only [LocalTree.flush]
+    rw [flushStore_apply, pendingFor_zero _ c (zeroed_pending _)]
+    rfl
+  · simp only [LocalTree.flush, List.map_map]
+    rfl
+
+/-- label `k { a: "x", b: "x" }`: fields `a` and `b` are aliases of the child `{k ↦ x}` -/
+def dAlias : Decl := [⟨[107], [([97], [120]), ([98], [120])]⟩]
+
+/-- **flush_skipping_aliases_loses** — a generated flush that visited only the first field per distinct
+    value (enough to reach every CHILD) would lose updates: with `k { a: "x", b: "x" }`, one `inc`
+    through the alias `b` and a flush, the child `{k ↦ x}` (which `b` denotes) still reads 0 and the
+    update sits in leaf `b` for ever, while the real `flush()` delivers it -/
+theorem flush_skipping_aliases_loses :
+    resolve dAlias [] [[98]] = some [([107], [120])] ∧
+    (((LocalTree.init dAlias (fun _ => 0)).inc [[98]]).flushSkippingAliases dAlias).store [([107], [120])] = 0 ∧
+    pendingFor (((LocalTree.init dAlias (fun _ => 0)).inc [[98]]).flushSkippingAliases dAlias).leaves [([107], [120])] = 1 ∧
+    (((LocalTree.init dAlias (fun _ => 0)).inc [[98]]).flush).store [([107], [120])] = 1 := by
+  decide +kernel
+
+/-- non-vacuity: 2 labels, aliases at the first level; three `inc`s reach `{m ↦ p, v ↦ H1}` through the
+    two alias paths, one reaches `{m ↦ p, v ↦ H2}` -/
+def d2 : Decl := [⟨[109], [([112], [112]), ([113], [112])]⟩, ⟨[118], [([49], [72, 49]), ([50], [72, 50])]⟩]
+example :
+    let t := ((LocalTree.init d2 (fun _ => 0)).run
+      [.inc [[112], [49]] 1, .inc [[113], [49]] 1, .flush, .inc [[113], [49]] 1, .inc [[112], [50]] 1]).flush
+    t.store [([109], [112]), ([118], [72, 49])] = 3 ∧ t.store [([109], [112]), ([118], [72, 50])] = 1 ∧
+    t.leaves.length = 4 := by
+  decide +kernel
 
 end Prom.C19
